@@ -47,6 +47,25 @@ def enumerate_edits(maxl, maxr, bases=ALL_BASES, chk=None, simulate=None, depth=
     return out
 
 
+def _bucket(t):
+    """Stratum of an enumerated triple: kinds of the two edits, their relative position and,
+    for concurrent run insertions at one position, which runs."""
+    hist = t.get("hist") or []
+    if not hist:
+        return ("none",)
+    eds = sorted((h["edit"] for h in hist), key=lambda e: e["a"])
+    key = tuple(e["a"] for e in eds)
+    pos = [e.get("pos", e.get("from")) for e in eds]
+    if len(eds) == 2 and None not in pos:
+        d = abs(pos[0] - pos[1])
+        key += ("same" if d == 0 else "adjacent" if d == 1 else "apart",)
+        if d == 0 and eds[0]["a"] == "InsertRun" and eds[1]["a"] == "InsertRun":
+            key += (eds[0]["run"], eds[1]["run"])
+        if d == 0 and "v" in eds[0] and "v" in eds[1]:
+            key += ("v-equal" if eds[0]["v"] == eds[1]["v"] else "v-differ",)
+    return key
+
+
 class Corpus(object):
     def __init__(self, chk):
         self.chk = chk
@@ -82,7 +101,7 @@ class Corpus(object):
             r.shuffle(abstract)
             buckets = {}
             for t in abstract:
-                k = tuple(sorted(h["edit"]["a"] for h in t["hist"])) if t["hist"] else ("none",)
+                k = _bucket(t)
                 buckets.setdefault(k, []).append(t)
             picked = []
             keys = sorted(buckets)
